@@ -284,6 +284,27 @@ def _m_alloc_post_partial():
     h.alloc_obj.replace_all = replace_all
 
 
+def _m_rc_id_retry_dropped():
+    # a lost race for a custom class id is no longer retried
+    from placement.objects import resource_class as rc
+    rc.ResourceClass.RESOURCE_CREATE_RETRY_COUNT = 1
+
+
+def _m_rc_next_id_reuses_gap():
+    # next custom id = number of custom classes + 10000 (collides after a
+    # delete of a class that is not the highest)
+    from placement.objects import resource_class as rc
+    from placement.db.sqlalchemy import models
+    from placement import db_api
+
+    @db_api.placement_context_manager.reader
+    def _get_next_id(context):
+        n = context.session.query(models.ResourceClass).filter(
+            models.ResourceClass.id >= 10000).count()
+        return 10000 + n
+    rc.ResourceClass._get_next_id = staticmethod(_get_next_id)
+
+
 def _m_neg_reorder_checks():
     # negative control: early generation comparison of set_inventories
     # skipped; the CAS in the write transaction still protects.
@@ -328,6 +349,8 @@ MUTANTS = {
     'reshape-commits-interim': _m_reshape_commits_interim,
     'limit-plus-one': _m_limit_plus_one,
     'alloc-post-partial': _m_alloc_post_partial,
+    'rc-id-retry-dropped': _m_rc_id_retry_dropped,
+    'rc-next-id-reuses-gap': _m_rc_next_id_reuses_gap,
     'neg-error-text': _m_neg_error_text,
 }
 
@@ -354,6 +377,8 @@ EXPECTED = {
     'reshape-commits-interim': ['C18', 'C04'],
     'limit-plus-one': ['C20'],
     'alloc-post-partial': ['C04', 'C18'],
+    'rc-id-retry-dropped': ['C19'],
+    'rc-next-id-reuses-gap': ['C19'],
     'neg-error-text': [],
 }
 
